@@ -19,10 +19,17 @@ def evs(lf, name):
     return [e for e in lf.events if e[0] == "call" and e[1] == name]
 
 
-def opt(v):
-    """('none',) / ('some', expr) for an Option aggregate"""
+def opt(v, lf=None):
+    """('none',) / ('some', expr) for an Option aggregate or a symbol whose discriminant the
+    row decided"""
     if isinstance(v, Agg) and v.adt == "core::option::Option":
         return ("none",) if v.variant == "None" else ("some", v.elems[0].expr().lstrip("&"))
+    if isinstance(v, Sym) and lf is not None:
+        d = lf.discr(v.e)
+        if d == 0:
+            return ("none",)
+        if d == 1:
+            return ("some", "(%s as Some).0" % v.e)
     return ("?", v.expr())
 
 
@@ -80,7 +87,7 @@ def rule_compare(ctx):
         for e in ins:
             v = e[2][2]
             if isinstance(v, Agg) and v.adt == "tuple" and len(v.elems) == 2:
-                got.append((opt(v.elems[0]), opt(v.elems[1])))
+                got.append((opt(v.elems[0], lf), opt(v.elems[1], lf)))
             else:
                 got.append(("?", v.expr()))
             # keyed by the iterated log id, under the iterated author
@@ -91,8 +98,9 @@ def rule_compare(ctx):
                    key="C06.1:key:" + case)
         rows[case] = got
         ctx.ob("C06.1", "row:" + case, want is not None and got == want,
-               "per-log table row `%s`: emits %s, required %s (l = local height, r = remote height)"
-               % (case, got, want), site=b.loc(inner.bb), key="C06.1:row:" + case)
+               "per-log table row `%s` (answers %s): emits %s, required %s (l = local height, r = remote "
+               "height)" % (case, {q: a for q, a in lf.summary()["answers"].items() if "rel(" in q or "ord(" in q},
+                            got, want), site=b.loc(inner.bb), key="C06.1:row:" + case)
         ctx.ob("C06.1", "loop continues:" + case, lf.stop_bb == inner.bb,
                "after handling a log the loop must continue with the next log (bb%s)" % lf.stop_bb,
                site=b.loc(inner.bb), trivial=True)
@@ -174,10 +182,12 @@ def rule_compare(ctx):
             and opt(v.elems[1].elems[0]) == ("none",) and opt(v.elems[1].elems[1]) == ("some", "kv.1")
         ctx.ob("C06.2", "unknown author: every local log from the start up to its height", ok,
                "closure returns %s, required (log_id, (None, Some(height)))" % v.expr(), site=cl.loc())
-    # who-may-write remote_needs
-    ins = [c for c in sem_calls(b) if c.is_(INSERT)]
-    ctx.ob("C06.3", "only the three tabulated sites write the diff", len(ins) == 3,
-           "%d BTreeMap::insert sites in compare (3 tabulated)" % len(ins), site=b.loc())
+    # every mutation of the diff must be one of the tabulated insert events
+    muts = [c for c in sem_calls(b) if c.name.startswith("alloc::collections::btree::map::") and
+            c.name.rsplit("::", 1)[1] in ("remove", "extend", "append", "clear", "retain", "pop_first", "pop_last",
+                                          "or_insert", "or_insert_with", "and_modify", "insert_entry")]
+    ctx.ob("C06.3", "diff is only written by the tabulated inserts", not muts,
+           "unrecognised-shape: further mutation of a BTreeMap in compare: %s" % muts, site=b.loc())
 
 
 def rule_cursor_compare(ctx):
